@@ -26,6 +26,9 @@ type Decision struct {
 	Kind int  `json:"kind"` // 0 pass, 1 truncate, 2 EINTR, 3 EAGAIN
 	K    int  `json:"k,omitempty"`
 	Rel  bool `json:"rel,omitempty"` // k counts from the end (n-k)
+	// Hold (with a short write or EAGAIN): the "kernel" is full from now on - every further write call
+	// of the connection gets EAGAIN - until a writer's program reaches a "release" op (or the programs end)
+	Hold bool `json:"hold,omitempty"`
 }
 
 type ShimCase struct {
@@ -65,11 +68,27 @@ func runShim(c ShimCase) vlib.Result {
 	}
 	var idx int64
 	var injected [4]int64
+	var hold, holds int32
+	var holdMu sync.Mutex
+	finished := false
 	nbio.VerifSetHook(func(op string, f int, n int) (int, int) {
 		if f != fd || op == "read" || len(c.Script) == 0 {
 			return nbio.VerifPass, 0
 		}
+		if atomic.LoadInt32(&hold) == 1 {
+			return nbio.VerifEAGAIN, 0
+		}
 		d := c.Script[int(atomic.AddInt64(&idx, 1)-1)%len(c.Script)]
+		if d.Hold && c.Mode != vlib.ModeET && (d.Kind == nbio.VerifEAGAIN || d.Kind == nbio.VerifTruncate) {
+			defer func() {
+				holdMu.Lock()
+				if !finished { // once the programs have ended nobody would release it any more
+					atomic.StoreInt32(&hold, 1)
+					atomic.AddInt32(&holds, 1)
+				}
+				holdMu.Unlock()
+			}()
+		}
 		k := d.K
 		if d.Rel {
 			k = n - d.K
@@ -125,6 +144,14 @@ func runShim(c ShimCase) vlib.Result {
 			defer wg.Done()
 			st := states[wi]
 			for oi, op := range c.Writers[wi] {
+				switch op.K {
+				case "pause":
+					time.Sleep(time.Duration(op.Sizes[0]) * time.Microsecond)
+					continue
+				case "release":
+					atomic.StoreInt32(&hold, 0)
+					continue
+				}
 				total := 0
 				for _, s := range op.Sizes {
 					total += s
@@ -174,7 +201,14 @@ func runShim(c ShimCase) vlib.Result {
 		}(wi)
 	}
 	wdone := make(chan struct{})
-	go func() { wg.Wait(); close(wdone) }()
+	go func() {
+		wg.Wait()
+		holdMu.Lock()
+		finished = true
+		atomic.StoreInt32(&hold, 0)
+		holdMu.Unlock()
+		close(wdone)
+	}()
 	select {
 	case <-wdone:
 	case <-time.After(30 * time.Second):
@@ -238,6 +272,9 @@ func runShim(c ShimCase) vlib.Result {
 			return res
 		}
 	}
+	if atomic.LoadInt32(&holds) > 0 {
+		res.Classes = append(res.Classes, "kernel-held-full")
+	}
 	res.NonTrivial = injected[1]+injected[2]+injected[3] > 0
 	if injected[1] > 0 {
 		res.Classes = append(res.Classes, "injected=truncate")
@@ -257,13 +294,21 @@ func genShim(t *rapid.T) ShimCase {
 	for w := 0; w < nw; w++ {
 		var ops []Op
 		n := rapid.IntRange(1, 8).Draw(t, "nops")
+		small := rapid.Bool().Draw(t, "smallprofile") // writes that coalesce into one queue entry (<= 64 KiB together)
 		for i := 0; i < n; i++ {
-			k := rapid.SampledFrom([]string{"write", "write", "writev", "writev", "sendfile"}).Draw(t, "opkind")
+			k := rapid.SampledFrom([]string{"write", "write", "writev", "writev", "sendfile", "pause", "release"}).Draw(t, "opkind")
 			size := func() int {
+				if small {
+					return rapid.SampledFrom([]int{0, 1, 2, 100, 1000, 4096, 12000, 30000, 45000}).Draw(t, "size")
+				}
 				return rapid.SampledFrom([]int{0, 1, 2, 100, 4096, 65535, 65536, 65537, 70000, 200000}).Draw(t, "size")
 			}
 			op := Op{K: k}
 			switch k {
+			case "pause":
+				op.Sizes = []int{rapid.SampledFrom([]int{50, 200, 1000}).Draw(t, "pauseus")}
+			case "release":
+				op.Sizes = []int{0}
 			case "writev":
 				nb := rapid.IntRange(1, 5).Draw(t, "nbufs")
 				for j := 0; j < nb; j++ {
@@ -294,6 +339,9 @@ func genShim(t *rapid.T) ShimCase {
 		if d.Kind == 1 {
 			d.K = rapid.SampledFrom([]int{1, 2, 3, 100, 4095, 4096, 65535, 65536}).Draw(t, "k")
 			d.Rel = rapid.Bool().Draw(t, "rel")
+		}
+		if (d.Kind == 1 || d.Kind == 3) && c.Mode != vlib.ModeET {
+			d.Hold = rapid.IntRange(0, 2).Draw(t, "hold") == 0
 		}
 		c.Script = append(c.Script, d)
 	}
